@@ -1,7 +1,7 @@
 """C03 - mnemonic+passphrase -> seed -> master key follows BIP39/BIP32 for all text; constructors agree."""
 import unicodedata
 
-from ..core import attempt, V, R
+from ..core import attempt, V, R, HarnessError
 from ..ref import hd, secp
 
 LEVEL = "exploration"
@@ -81,8 +81,14 @@ def chk_text(mi, pi):
         if xs != hd.xprv(rm, 0x04358394 if testnet else 0x0488ADE4):
             viols.append(V("%s:from_mnemonic:%s:wrong-xprv" % (P, "testnet" if testnet else "mainnet"), "master xprv", xs,
                            hd.xprv(rm, 0x04358394 if testnet else 0x0488ADE4)))
-        if w.mnemonic != m or w.password != p or w.testnet != testnet:
-            viols.append(V(P + ":from_mnemonic:echo:wrong", "wallet does not echo mnemonic/passphrase/network"))
+        # what the wallet remembers of its inputs is not fixed by the property (it may keep a normalised form); but IF it
+        # exposes a mnemonic and passphrase as text, they must regenerate the very key material it holds, and a network flag
+        # must be the requested one
+        wm, wp = getattr(w, "mnemonic", None), getattr(w, "password", None)
+        if isinstance(wm, str) and isinstance(wp, str) and hd.seed_from_mnemonic(wm, wp) != exp:
+            viols.append(V(P + ":from_mnemonic:remembered-text:other-seed", "the mnemonic/passphrase the wallet remembers (%r / %r) do not give its own seed" % (wm[:30], wp)))
+        if getattr(w, "testnet", testnet) != testnet:
+            viols.append(V(P + ":from_mnemonic:network-flag:wrong", "wallet built with testnet=%r reports testnet=%r" % (testnet, w.testnet)))
     return viols
 
 
@@ -188,7 +194,7 @@ def chk_new(length, pi, testnet):
     rm = hd.master(hd.seed_from_mnemonic(w.mnemonic, p))
     if not ok or len(w.mnemonic.split(" ")) != length:
         return [V(P + ":new_wallet:mnemonic:bad-checksum-or-length", "new wallet mnemonic %r" % w.mnemonic)]
-    if int.from_bytes(bytes(w.master.key), "big") != rm.k or bytes(w.master.chain_code) != rm.chain or w.password != p or w.testnet != testnet:
+    if int.from_bytes(bytes(w.master.key), "big") != rm.k or bytes(w.master.chain_code) != rm.chain or getattr(w, "testnet", testnet) != testnet:
         return [V(P + ":new_wallet:constructor:different-master", "new_wallet master is not the master of its own mnemonic+passphrase")]
     w2 = BaseWallet.from_mnemonic(w.mnemonic, p, testnet)
     if not (w2 == w):
@@ -295,6 +301,26 @@ def run(ctx):
         ents += [b"\x00" * size, b"\xff" * size, bytes(r.randrange(256) for _ in range(size)), b"\x00" * 4 + bytes(r.randrange(256) for _ in range(size - 4))]
     pis = [0, 1, 2, 12] if not ctx.thorough else list(range(len(P_ALPHA)))
     ctx.product("constructor-equivalence", [{"k": "ctor", "ent": e.hex(), "p": p} for e in ents for p in pis], execute)
+    # corner classes of the computed intermediates (vf/corners.py): the 64 seed bytes, master secret IL and chain code IR -
+    # every byte position 00 / ff, every first / last byte value; each kept entropy goes through every constructor
+    from .. import corners
+    from ..ref import enc
+
+    def cands():
+        i = 0
+        while True:
+            ent = enc.sha256(b"C03-corner-%d-%d" % (ctx.seed, i))[:(16, 32, 24, 20, 28)[i % 5]]
+            i += 1
+            seed = hd.seed_from_mnemonic(hd.mnemonic_from_entropy(ent), "")
+            I_ = enc.hmac_sha512(b"Bitcoin seed", seed)
+            if not 0 < int.from_bytes(I_[:32], "big") < hd.N:
+                continue
+            yield ent, {"seed": seed, "IL": I_[:32], "IR": I_[32:]}
+    kept, st = corners.cover(cands(), {"seed": 64, "IL": 32, "IR": 32}, 60000, pairs=ctx.thorough)
+    ctx.extra["intermediate_corner_classes"] = st
+    if st["covered"] != st["classes"]:
+        raise HarnessError("corner cover incomplete: %r" % (st,))
+    ctx.product("intermediate-corners", [{"k": "ctor", "ent": e.hex(), "p": 0} for e, _ in kept], execute, chunk=8)
     from ..bfs import bfs, long_histories, PureCalls
     model = PureCalls(len(_GRID), _pure_judge, P)
     bfs(ctx, "seed-call-histories", model, 3 if ctx.thorough else 2)
